@@ -452,10 +452,42 @@ func c17ColdProbe(ctx *core.Ctx) {
 		{"r.ef.g", "deep-compact"}, {"r['e f'].g", "deep-spaced"}, {"r['e f']['g']", "deep-spaced"}, {"r['ef']['g']", "deep-compact"},
 		{"l[0]", "first"}, {"l[ 0 ]", "first"}, {"l[1]", "second"}, {"l[ 1 ]", "second"}, {"r['0']", "zero-key"}, {"r[0]", "zero-key"},
 	} {
+		// (twice: the second answer comes from what the first one left in the cache)
+		for round := 0; round < 2; round++ {
+			ctx.Eval(1)
+			got, ok := st.Resolve(q.path)
+			if !ok || got != any(q.want) {
+				ctx.Violation("path-resolution", "spelling", "first-paths-of-a-process", fmt.Sprintf("in a process that has resolved few paths so far, %q gives (%#v, %v) when asked for the %s time, want %q", q.path, got, ok, []string{"first", "second"}[round], q.want))
+			}
+		}
+	}
+	// a name in brackets is a variable: the same path text with another value of that variable
+	vs := vuego.NewStack(map[string]any{"l": []any{"first", "second"}, "m": map[string]any{"a": "ma", "b": "mb"}, "i": 0, "k": "a"})
+	for _, step := range []struct {
+		i    int
+		k    string
+		l, m string
+	}{{0, "a", "first", "ma"}, {1, "b", "second", "mb"}, {0, "b", "first", "mb"}} {
+		vs.Set("i", step.i)
+		vs.Set("k", step.k)
+		ctx.Eval(2)
+		if got, ok := vs.Resolve("l[i]"); !ok || got != any(step.l) {
+			ctx.Violation("path-resolution", "spelling", "variable-index-changes", fmt.Sprintf("l[i] with i=%d gives (%#v, %v), want %q", step.i, got, ok, step.l))
+		}
+		if got, ok := vs.Resolve("m[k]"); !ok || got != any(step.m) {
+			ctx.Violation("path-resolution", "spelling", "variable-index-changes", fmt.Sprintf("m[k] with k=%q gives (%#v, %v), want %q", step.k, got, ok, step.m))
+		}
+	}
+	// the variable's value is the key as it is: with dots, blanks, as a float
+	ks := vuego.NewStack(map[string]any{"hosts": map[string]any{"example.com": "dotted", "example": map[string]any{"com": "WRONG"}, " pad ": "padded", "pad": "WRONG", "1.5": "float", "1": map[string]any{"5": "WRONG"}, "a b": "spaced"}, "k": ""})
+	for _, kv := range []struct {
+		k    any
+		want string
+	}{{"example.com", "dotted"}, {" pad ", "padded"}, {1.5, "float"}, {"a b", "spaced"}, {"example.com", "dotted"}} {
+		ks.Set("k", kv.k)
 		ctx.Eval(1)
-		got, ok := st.Resolve(q.path)
-		if !ok || got != any(q.want) {
-			ctx.Violation("path-resolution", "spelling", "first-paths-of-a-process", fmt.Sprintf("in a process that has resolved few paths so far, %q gives (%#v, %v), want %q", q.path, got, ok, q.want))
+		if got, ok := ks.Resolve("hosts[k]"); !ok || got != any(kv.want) {
+			ctx.Violation("path-resolution", "spelling", "variable-index-value-taken-apart", fmt.Sprintf("hosts[k] with k=%#v gives (%#v, %v), want %q", kv.k, got, ok, kv.want))
 		}
 	}
 }
